@@ -140,8 +140,37 @@ def cases_for(rng, n, ctx):
     return cases
 
 
+def illconditioned_cases(rng, ctx, count):
+    """square tables of full column rank whose smallest singular value is 1e-4 .. 1e-5 of the largest (they occur among random tables as soon as
+    there are as many samples as configurations): the table still determines the data, the import has to restore them"""
+    cases = []
+    N = 150
+    idl = list(range(1, N + 1))
+    for k in range(count):
+        table = None
+        for _ in range(80):
+            t = rng.integers(0, N, size=(N, N))
+            A = np.array([np.bincount(row, minlength=N) for row in t]) / N
+            sv = np.linalg.svd(A, compute_uv=False)
+            if 1e-7 < sv[-1] / sv[0] < 8e-5:
+                table = t
+                break
+        if table is None:
+            continue
+        o = pe.Obs([rng.normal(size=N) + 1.0], ['boot|r1'], idl=[idl])
+        bs = _call(lambda: o.export_bootstrap(samples=N, random_numbers=table))
+        if isinstance(bs, Exception):
+            continue
+        bi = _call(lambda: pe.import_bootstrap(bs, 'boot|r1', table))
+        cases.append({'id': 'bi-illcond-%d' % k, 'ev': 'boot_import', 'obs': project_obs(o), 'table': [[int(v) for v in row] for row in table],
+                      'fullrank': True, 'res': _res(bi)})
+        ctx.nontrivial.add(('illcond', k))
+    return cases
+
+
 def run(ctx):
     rng = np.random.default_rng(ctx.seed)
     ctx.model('MC_Resample', cfg='MC_Resample.cfg' if ctx.quick else 'MC_Resample_deep.cfg', timeout=1800)
     cases = cases_for(rng, 90 if ctx.quick else 900, ctx)
+    cases += illconditioned_cases(rng, ctx, 2 if ctx.quick else 6)
     ctx.validate('ResampleTrace', cases)
